@@ -60,6 +60,8 @@ pub struct World {
     pub knobs: Knobs,
     pub clock_ns: u64,
     pub names: Vec<String>,
+    /// fidelity check: mirror every fs call on the real file system (see twin.rs)
+    pub twin: Option<Rc<RefCell<crate::twin::TwinFs>>>,
 }
 
 impl World {
@@ -68,12 +70,16 @@ impl World {
         fs.bug.short_write = knobs.short_write;
         fs.bug.short_read = knobs.short_read;
         fs.bug.eintr = knobs.eintr;
-        World { fs: Rc::new(RefCell::new(fs)), log: None, policy, knobs, clock_ns: 1_000_000_000, names }
+        World { fs: Rc::new(RefCell::new(fs)), log: None, policy, knobs, clock_ns: 1_000_000_000, names, twin: None }
     }
 
     /// Runs `f` with this world's file system, clock, hash seed and knobs installed.
     fn with<T>(&mut self, f: impl FnOnce(&mut World) -> T) -> Result<T, String> {
-        let prev = mrecordlog::verif::install_fs(Some(Box::new(SharedFs(self.fs.clone()))));
+        let backend: Box<dyn mrecordlog::verif::VerifFs> = match &self.twin {
+            Some(t) => Box::new(crate::twin::SharedTwin(t.clone())),
+            None => Box::new(SharedFs(self.fs.clone())),
+        };
+        let prev = mrecordlog::verif::install_fs(Some(backend));
         mrecordlog::verif::set_clock_nanos(Some(self.clock_ns));
         mrecordlog::verif::set_hash_seed(self.knobs.hash_seed);
         mrecordlog::verif::set_bufwriter_capacity(self.knobs.bufwriter_capacity);
